@@ -64,7 +64,7 @@ class Chooser:
         self.seen.add(key)
 
 
-def explore(run, bound=None, max_execs=None, seen=None, stats=None):
+def explore(run, bound=None, max_execs=None, seen=None, stats=None, free_kinds=()):
     """Yield (chooser, result) for every execution within the deviation bound.
 
     ``bound``: max number of non-default choices per execution (None = unbounded = exhaustive).
@@ -84,14 +84,15 @@ def explore(run, bound=None, max_execs=None, seen=None, stats=None):
         pts = ch.points
         if len(pts) < len(prefix):
             raise HarnessError(f"replay divergence: run ended after {len(pts)} points, prefix has {len(prefix)}")
-        base = sum(1 for c in prefix if c != 0)
-        if bound is None or base + 1 <= bound:
-            labels = [(p[0], p[1], p[2]) for p in pts]
-            chs = [p[3] for p in pts]
-            # push in reverse so that earlier points / smaller alternatives are explored first
-            for i in range(len(pts) - 1, len(prefix) - 1, -1):
-                for alt in range(pts[i][2] - 1, 0, -1):
-                    stack.append((chs[:i] + [alt], labels[: i + 1]))
+        base = sum(1 for c, p in zip(prefix, pts) if c != 0 and p[0] not in free_kinds)
+        labels = [(p[0], p[1], p[2]) for p in pts]
+        chs = [p[3] for p in pts]
+        # push in reverse so that earlier points / smaller alternatives are explored first
+        for i in range(len(pts) - 1, len(prefix) - 1, -1):
+            if not (bound is None or pts[i][0] in free_kinds or base + 1 <= bound):
+                continue
+            for alt in range(pts[i][2] - 1, 0, -1):
+                stack.append((chs[:i] + [alt], labels[: i + 1]))
         if max_execs is not None and n >= max_execs and stack:
             if stats is not None:
                 stats["cap_hit"] = stats.get("cap_hit", 0) + 1
